@@ -455,7 +455,11 @@ def check(pid, tier, seed, only_random=False, extra=None):
     if extra is not None:
         xv, extra_cov, xnotes = extra(pid, tier, seed, rnd)
         violations.extend(xv)
-        notes.extend(xnotes)
+        for n in xnotes:
+            if n.startswith("KNOWN "):
+                known.append(n[6:])
+            else:
+                notes.append(n)
         states += extra_cov.get("states", 0)
         transitions += extra_cov.get("transitions", 0)
 
@@ -537,7 +541,21 @@ def est_part(pid, tier, seed, rnd):
         with open(rp + ".trace.ndjson", "w") as tf:
             tf.write(est.extract(batch, v["x"]))
         violations.append(("conformance", "%s in establishment scenario '%s' at step %d: %s" % (v["tag"], s, v["n"], v["detail"]), rp))
-    cov = dict(states=states, transitions=transitions, model_configurations=summary, executions=st["executions"] - st["setup_failed"],
+    resolver = {}
+    if pid == "C05":
+        # name-resolution and multi-address connect phases under a scripted resolver: the C13 harness, whose traces carry
+        # the same wait counter (spec/TConnectTrace.tla emits C05.wait)
+        import check_c13
+        tv, tknown, tcov = check_c13.check("C05", tier, seed, as_c05=True)
+        violations.extend(tv)
+        notes.extend("KNOWN " + k for k in tknown)
+        resolver = dict(executions=tcov.get("traces_validated_against_impl", 0), api_calls=tcov.get("evaluations", 0),
+                        calls_with_waits=tcov.get("c05_wait_records", 0), samples=tcov.get("c05_wait_samples", []),
+                        states=tcov.get("states", 0), transitions=tcov.get("transitions", 0))
+        states += resolver["states"]
+        transitions += resolver["transitions"]
+    cov = dict(states=states, transitions=transitions, model_configurations=summary, executions=st["executions"] - st["setup_failed"] + resolver.get("executions", 0),
+               resolver_phase=resolver,
                api_calls=st["api_calls"], api_calls_answered_eagain=st["calls_not_ready"], executions_by_scenario=st["by_scenario"],
                stuck_runs=st["stuck"], crashes=st["crashes"], calls_with_wait=st["waits"], trace_lines=nlines,
                mismatches_tagged_for_other_properties=others)
@@ -545,6 +563,9 @@ def est_part(pid, tier, seed, rnd):
 
 
 def replay(pid, path):
+    if path.endswith(".scn"):
+        import check_c13
+        return check_c13.replay(pid, path)
     lines0 = [l.rstrip("\n") for l in open(path) if l.strip() and not l.startswith("#")]
     if lines0 and len(lines0[0].split()) >= 4 and lines0[0].split()[3] in ("normal", "refused", "silent", "release", "mute", "garbage", "idle"):
         import est
